@@ -48,7 +48,7 @@ ASSUMPTIONS = [
     "element names used by the harness itself are chosen different from the candidate (uniqueness rules are C07)",
     "component names are exercised with a GPU component (a NIC derives service/interface names from it)",
 ]
-BUDGET = {"quick": 120000, "thorough": 3000000}
+BUDGET = {"quick": 100000, "thorough": 2500000}
 MIN_LABEL_FRACTION = {
     "cls:MEMBER": 0.25, "cls:NON-MEMBER": 0.35, "nt": 0.25,
     # (boot-script and capacity cases live in small finite spaces; Hypothesis does not repeat examples)
@@ -358,7 +358,6 @@ def _run_label(case):
 def _element_entry(ctx, case, info, prop, graph_prop, make, graph_text, prior_make, updater, read, check):
     """one model-element entry point, chosen by case['via'], on a fresh minimal topology.
     make(): builds the value object (may raise = rejection by the constructor on this path)."""
-    from fim.user.topology import ExperimentTopology    # noqa: F401  (import check)
     elem_kind, via = case.get("elem", "node"), case["via"]
     if via in ("add-kwarg", "graph-read") and elem_kind not in ("node", "component"):
         elem_kind = "node"
